@@ -837,7 +837,8 @@ class bptk():
             if return_format=="df":
                 df = simulation_results.pop(0)
                 for tmp_df in simulation_results:
-                    df = df.join(tmp_df)
+                    # keep the times of every scenario manager: their scenarios need not share one time grid
+                    df = df.join(tmp_df, how="outer")
             else:
                 # this works because in this case the entire data structure is copied a number of times
                 df = simulation_results.pop(0)
